@@ -727,6 +727,65 @@ func (r *runner) sctListChecks(scts []*sctRec) {
 
 func pick(rng interface{ Intn(int) int }, xs []string) string { return xs[rng.Intn(len(xs))] }
 
+// runAll executes the cases on all cores; rounds > 1 replays them again under other materializations.
+func runAll(t *testing.T, path string, rep *vh.Report, keys *Keys, rounds int, randomize bool) int {
+	n := 0
+	for round := 0; round < rounds; round++ {
+		cases, err := vh.LoadNDJSON[Case](path)
+		if err != nil {
+			t.Fatal(err)
+		}
+		n = len(cases)
+		// choose materializations before the parallel part (deterministic in the seed)
+		rng := vh.Rand(int64(3 + round))
+		for i := range cases {
+			cs := &cases[i]
+			if cs.Mat != nil {
+				cs.remap(*cs.Mat)
+				continue
+			}
+			if randomize && cs.C.Enc == defaultEnc && (round > 0 || rng.Intn(3) > 0) {
+				e := Enc{pick(rng, encSerials), pick(rng, encValidities), pick(rng, encINames), pick(rng, encSNames),
+					pick(rng, encKeys), pick(rng, encIKeys), pick(rng, encUIDs)}
+				cs.Mat = &e
+				cs.remap(e)
+			}
+		}
+		var wg sync.WaitGroup
+		ch := make(chan int)
+		for k := 0; k < runtime.NumCPU(); k++ {
+			wg.Add(1)
+			go func() {
+				defer wg.Done()
+				w := &world{keys: keys, cache: map[string]*hier{}}
+				for i := range ch {
+					r := &runner{w: w, rep: rep, cs: &cases[i], idx: i}
+					func() {
+						defer func() {
+							if p := recover(); p != nil {
+								t.Errorf("harness panic in case %d: %v", i, p)
+							}
+						}()
+						r.run()
+					}()
+				}
+			}()
+		}
+		for i := range cases {
+			ch <- i
+		}
+		close(ch)
+		wg.Wait()
+		if round == 0 && len(cases) > 0 {
+			for _, i := range []int{0, len(cases) / 2} {
+				b, _ := json.Marshal(cases[i].C)
+				rep.Sample(json.RawMessage(b))
+			}
+		}
+	}
+	return n
+}
+
 // TestReplay materializes every case exported by MCPrecert (VERIF_CASES) and compares the repository's
 // functions with the specification's expected results.
 func TestReplay(t *testing.T) {
@@ -734,61 +793,26 @@ func TestReplay(t *testing.T) {
 	if path == "" {
 		t.Skip("VERIF_CASES not set")
 	}
-	cases, err := vh.LoadNDJSON[Case](path)
-	if err != nil {
-		t.Fatal(err)
-	}
-	rep := vh.NewReport("c03-replay", "every case of MCPrecert.tla (extension layout x criticality x issuer mode x AKI presence x field encodings x SCT list) is DER-encoded by the harness' own builder, signed with real keys and run through BuildPrecertTBS/RemoveCTPoison/RemoveSCTList, MerkleTreeLeafFromChain/FromRawChain/ForEmbeddedSCT, VerifySCT, LeafHash and the SCT list helpers; results compared byte for byte with the builder applied to the model's expected abstract TBS; non-trivial = distinct case")
+	rep := vh.NewReport("c03-replay", "every case of MCPrecert.tla (extension layout x criticality x issuer mode x AKI presence x field encodings x SCT list) is DER-encoded by the harness' own builder, signed with real keys and run through BuildPrecertTBS/RemoveCTPoison/RemoveSCTList, MerkleTreeLeafFromChain/FromRawChain/ForEmbeddedSCT, VerifySCT, LeafHash and the SCT list helpers; results compared byte for byte with the builder applied to the model's expected abstract TBS; non-trivial = distinct (case, materialization)")
 	keys := NewKeys()
-	randomize := os.Getenv("VERIF_RANDOMIZE") != "0"
-	// choose materializations before the parallel part (deterministic in the seed)
-	rng := vh.Rand(3)
-	for i := range cases {
-		cs := &cases[i]
-		if cs.Mat != nil {
-			cs.remap(*cs.Mat)
-			continue
-		}
-		if randomize && cs.C.Enc == defaultEnc && rng.Intn(3) > 0 {
-			e := Enc{pick(rng, encSerials), pick(rng, encValidities), pick(rng, encINames), pick(rng, encSNames),
-				pick(rng, encKeys), pick(rng, encIKeys), pick(rng, encUIDs)}
-			cs.Mat = &e
-			cs.remap(e)
-		}
-	}
-	var wg sync.WaitGroup
-	ch := make(chan int)
-	for k := 0; k < runtime.NumCPU(); k++ {
-		wg.Add(1)
-		go func() {
-			defer wg.Done()
-			w := &world{keys: keys, cache: map[string]*hier{}}
-			for i := range ch {
-				r := &runner{w: w, rep: rep, cs: &cases[i], idx: i}
-				func() {
-					defer func() {
-						if p := recover(); p != nil {
-							t.Errorf("harness panic in case %d: %v", i, p)
-						}
-					}()
-					r.run()
-				}()
-			}
-		}()
-	}
-	for i := range cases {
-		ch <- i
-	}
-	close(ch)
-	wg.Wait()
-	rep.Replayed = len(cases)
-	if len(cases) > 0 {
-		for _, i := range []int{0, len(cases) / 2} {
-			b, _ := json.Marshal(cases[i].C)
-			rep.Sample(json.RawMessage(b))
-		}
-	}
+	rep.Replayed = runAll(t, path, rep, keys, vh.EnvInt("VERIF_ROUNDS", 1), os.Getenv("VERIF_RANDOMIZE") != "0")
 	if err := rep.Write(); err != nil {
 		t.Fatal(err)
+	}
+	// the binding binds: cases whose expected values were corrupted by the driver must be flagged, each of them
+	if cp := os.Getenv("VERIF_CANARY"); cp != "" {
+		canaries, err := vh.LoadNDJSON[Case](cp)
+		if err != nil {
+			t.Fatal(err)
+		}
+		for i := range canaries {
+			crep := vh.NewReport("canary", "")
+			w := &world{keys: keys, cache: map[string]*hier{}}
+			r := &runner{w: w, rep: crep, cs: &canaries[i], idx: i}
+			r.run()
+			if len(crep.Violations) == 0 {
+				t.Fatalf("canary %d (corrupted expectation) was not flagged: the comparison does not bind", i)
+			}
+		}
 	}
 }
